@@ -4,7 +4,7 @@ from lib.coqterm import cbool, clist
 
 ID = "C11"
 QUICK_N = 2000
-THOROUGH_N = 60000
+THOROUGH_N = 16000
 SHARD = 500
 TRANSLATORS = ["watchdog_cond"]
 COQ_PRELUDE = "From MV Require Import Model.FlowControl.\n"
